@@ -28,7 +28,8 @@ class ApiWorld:
             handle0 = self.console._handle
 
             def handle(conn, f, cmd):
-                H.snapshot(self.at)
+                if self.at is not None:
+                    H.snapshot(self.at)
                 return handle0(conn, f, cmd)
             self.console._handle = handle
 
